@@ -467,18 +467,34 @@ def shrink(case):
             for k in ("b", "bi", "x", "xi", "g", "gi"):
                 if c.get(k) is not None:
                     c[k] = _dropv(c[k], i)
+            ok = True
             for k in ("opm", "approx"):
                 if c.get(k) is not None:
-                    c[k] = {kk: (_drop(vv, i) if isinstance(vv, list) else vv) for kk, vv in c[k].items()}
-            yield c
+                    o = {kk: (_drop(vv, i) if isinstance(vv, list) else vv) for kk, vv in c[k].items()}
+                    try:        # the inverse of a principal submatrix is not the submatrix of the inverse
+                        o["inv"], iim = inv_exact(o["mat"], o.get("mati"))
+                        if iim is not None:
+                            o["invi"] = iim
+                    except StopIteration:
+                        ok = False
+                    c[k] = o
+            if ok:
+                yield c
     if case.get("cplx"):
         c = dict(case, cplx=False)
         for k in ("Ai", "bi", "xi", "Pi", "gi"):
             c.pop(k, None)
+        ok = True
         for k in ("opm", "approx"):
             if c.get(k) is not None:
-                c[k] = {kk: vv for kk, vv in c[k].items() if kk not in ("mati", "invi")}
-        yield c
+                o = {kk: vv for kk, vv in c[k].items() if kk not in ("mati", "invi")}
+                try:
+                    o["inv"], _ = inv_exact(o["mat"], None)
+                except StopIteration:
+                    ok = False
+                c[k] = o
+        if ok:
+            yield c
     if case.get("P") is not None:
         c = dict(case, P=None)
         c.pop("Pi", None)
